@@ -42,7 +42,7 @@ def run(tier):
     plist = []
     rng = ck.rng.fork("profiles")
     profs = allp.all_profiles(avoid)
-    n = 1500 if quick else 50000
+    n = 1500 if quick else 50000 * common.TS
     for i in range(n):
         name, prof = profs[i % len(profs)]
         src, mods = progs.generate(rng.fork(str(i)), prof)
